@@ -179,6 +179,17 @@ def run(prop, tier, seed, replay=None):
     base_env = build.san_env("asan")
     for k in ("TZ", "TZDIR", "LOCALTIME"):
         base_env.pop(k, None)
+    if can_drop:
+        # the unprivileged user must be able to reach the probe and the test tree (not so under e.g. /root)
+        def _drop():
+            os.setgid(nobody.pw_gid)
+            os.setuid(nobody.pw_uid)
+        try:
+            t = subprocess.run([exe, abs_ny], env=base_env, stdout=subprocess.PIPE, stderr=subprocess.PIPE, text=True, timeout=60, preexec_fn=_drop)
+            if t.returncode != 0 or " 1 " not in t.stdout.split("\n")[0]:
+                can_drop = False
+        except (OSError, subprocess.SubprocessError):
+            can_drop = False
 
     def child(combo, as_nobody=False):
         td, tz, lt = combo
